@@ -644,25 +644,14 @@ class _zbl(_Potential_Function_Base):
     :param z1: Atomic number of species i
     :param z2: Atomic number of species j
     :return: Derivative of function"""
-    v = -14.39942*z1*z2*(self.Ck1*math.exp(2.13503407300877*r*(z1**0.23 + z2**0.23)\
-        * (self.Bk2 + self.Bk3 + self.Bk4))\
-        + self.Ck2*math.exp(2.13503407300877*r*(z1**0.23 + z2**0.23)\
-        *(self.Bk1 + self.Bk3 + self.Bk4))\
-        + self.Ck3*math.exp(2.13503407300877*r*(z1**0.23 + z2**0.23)\
-        *(self.Bk1 + self.Bk2 + self.Bk4))\
-        + self.Ck4*math.exp(2.13503407300877*r*(z1**0.23 + z2**0.23)\
-        *(self.Bk1 + self.Bk2 + self.Bk3))\
-        + 2.13503407300877*r*(z1**0.23 + z2**0.23)\
-        *(self.Bk1*self.Ck1*math.exp(2.13503407300877\
-        *r*(z1**0.23 + z2**0.23)*(self.Bk2 + self.Bk3 + self.Bk4))\
-        + self.Bk2*self.Ck2*math.exp(2.13503407300877*r*(z1**0.23 + z2**0.23)\
-        *(self.Bk1 + self.Bk3 + self.Bk4))\
-        + self.Bk3*self.Ck3*math.exp(2.13503407300877*r*(z1**0.23 + z2**0.23)\
-        *(self.Bk1 + self.Bk2 + self.Bk4)) + self.Bk4*self.Ck4\
-        *math.exp(2.13503407300877*r*(z1**0.23 + z2**0.23)\
-        *(self.Bk1 + self.Bk2 + self.Bk3))))\
-        *math.exp(-2.13503407300877*r*(z1**0.23 + z2**0.23)\
-        *(self.Bk1 + self.Bk2 + self.Bk3 + self.Bk4))/r**2
+    # Each term is written with the single (decaying) exponential it contains. Multiplying growing
+    # exponentials by one overall decaying exponential overflows at large separations.
+    s = 2.13503407300877*(z1**0.23 + z2**0.23)
+    e1 = self.Ck1*math.exp(-s*self.Bk1*r)
+    e2 = self.Ck2*math.exp(-s*self.Bk2*r)
+    e3 = self.Ck3*math.exp(-s*self.Bk3*r)
+    e4 = self.Ck4*math.exp(-s*self.Bk4*r)
+    v = -14.39942*z1*z2*((e1 + e2 + e3 + e4) + s*r*(self.Bk1*e1 + self.Bk2*e2 + self.Bk3*e3 + self.Bk4*e4))/r**2
     return v
 
   def deriv2(self, r, z1, z2):
